@@ -325,6 +325,10 @@ package actor
 //@   ensures  forall k mathint :: k != kKilledSys() && k != 2 * tagof("*vivid.OnLaunch") + 1 ==> gcount(toldn, k) == old(gcount(toldn, k))
 //@   ensures  gcount(published, tagof("ves.ActorKilledEvent")) <= old(gcount(published, tagof("ves.ActorKilledEvent"))) + 1
 //@   ensures  !old(c.zombie) && gcount(unregistered, c) > old(gcount(unregistered, c)) ==> len(c.children) == 0 && old(c.state) == 1 && c.state == 2
+// a RESTART goes through the same chain but never releases the actor or announces a termination (C08: same reference)
+//@   ensures  !old(c.zombie) && old(c.restarting) != nil ==> gcount(unregistered, c) == old(gcount(unregistered, c)) &&
+//@            (forall r vivid.ActorRef :: gcount(told, r, kKilledSys()) == old(gcount(told, r, kKilledSys()))) &&
+//@            gcount(published, tagof("ves.ActorKilledEvent")) == old(gcount(published, tagof("ves.ActorKilledEvent")))
 //@   ensures  !old(c.zombie) && old(c.state) != 1 ==> gcount(unregistered, c) == old(gcount(unregistered, c)) && forall r vivid.ActorRef :: gcount(told, r, kKilledSys()) == old(gcount(told, r, kKilledSys()))
 
 // ---------------------------------------------------------------------------------------------
@@ -392,12 +396,17 @@ package actor
 //@   requires forall p string :: p in c.children ==> c.children[p] != nil && (typeis(c.children[p], "*actor.Ref") ==> !nilptr(c.children[p]))
 //@   modifies c.children[*], c.state, c.envelop, c.actor, c.behaviorStack.behaviors, c.zombie, c.restarting, c.scheduler.jobKeys[*], anyold, gmap(told), gmap(toldn), gmap(tells), gmap(unregistered), gmap(unsuball), gmap(published), gmap(resumes), gmap(deleted), gmap(schedtried), gmap(scheduled), gmap(chclosed), gmap(piped), gmap(pipedn), gmap(failures), gmap(pauses), ghost(calls_closer), ghost(calls_behavior)
 //@   ensures  rfc == 1
+//@   ensures  !old(c.zombie) && old(c.restarting) != nil ==> gcount(unregistered, c) == old(gcount(unregistered, c)) &&
+//@            (forall r vivid.ActorRef :: gcount(told, r, kKilledSys()) == old(gcount(told, r, kKilledSys()))) &&
+//@            gcount(published, tagof("ves.ActorKilledEvent")) == old(gcount(published, tagof("ves.ActorKilledEvent")))
 //@   ensures  gcount(toldn, kKill(!old(message.Poison))) == old(gcount(toldn, kKill(!message.Poison))) + old(len(c.children))
 //@   ensures  forall p string :: old(p in c.children) ==> gcount(told, old(c.children[p]), kKill(!old(message.Poison))) > old(gcount(told, c.children[p], kKill(!message.Poison)))
 //@   ensures  gcount(unregistered, c) <= old(gcount(unregistered, c)) + 1
 //@ loop (*Context).doKill#1
 //@   modifies nothing
 //@   invariant rfc == 1
+//@   invariant forall r vivid.ActorRef, k mathint :: k != kKill(!message.Poison) ==> gcount(told, r, k) == old(gcount(told, r, k))
+//@   invariant forall t mathint :: gcount(published, t) == old(gcount(published, t))
 //@   invariant gcount(toldn, kKill(!message.Poison)) == old(gcount(toldn, kKill(!message.Poison))) + seencount()
 //@   invariant forall p string :: seen(p) ==> p in c.children && gcount(told, c.children[p], kKill(!message.Poison)) > old(gcount(told, c.children[p], kKill(!message.Poison)))
 //@   invariant forall r vivid.ActorRef, k mathint :: gcount(told, r, k) >= old(gcount(told, r, k))
@@ -557,9 +566,13 @@ package actor
 //@   ensures  message.Command == messages.CommandPauseMailbox ==> gcount(pauses, c.mailbox) == old(gcount(pauses, c.mailbox)) + 1 && forall m vivid.Mailbox :: gcount(resumes, m) == old(gcount(resumes, m))
 //@   ensures  message.Command == messages.CommandResumeMailbox ==> gcount(resumes, c.mailbox) == old(gcount(resumes, c.mailbox)) + 1 && forall m vivid.Mailbox :: gcount(pauses, m) == old(gcount(pauses, m))
 //@   ensures  forall m vivid.Mailbox :: m != c.mailbox ==> gcount(pauses, m) == old(gcount(pauses, m)) && gcount(resumes, m) == old(gcount(resumes, m))
+// onRestart sets `restarting`, runs the user's pre-restart hook and enters doKill: a trusted frame here (an attempt at
+// a verified contract left one precondition of doKill undischarged). What a restart does and does not do is stated
+// - and verified - on doKill / onKilled: with `restarting` set the actor is never released and no termination is
+// announced (C08: same reference).
 //@ func (*Context).onRestart
 //@   trusted
-//@   modifies anyold, gmap(told), gmap(toldn), gmap(tells), gmap(unregistered), gmap(unsuball), gmap(published), gmap(resumes), gmap(pauses), gmap(failures), ghost(calls_behavior)
+//@   modifies anyold, gmap(told), gmap(toldn), gmap(tells), gmap(unregistered), gmap(unsuball), gmap(published), gmap(resumes), gmap(pauses), gmap(failures), gmap(deleted), gmap(schedtried), gmap(scheduled), gmap(chclosed), gmap(piped), gmap(pipedn), ghost(calls_closer), ghost(calls_behavior)
 // Ping (C15): exactly one PongMessage (a user message) goes back to the sender of the ping, to nobody else
 //@ func (*Context).onPing
 //@   requires ctxwf(c) && c.envelop != nil && envSender(c.envelop) != nil
